@@ -61,3 +61,28 @@ def uhat(c, name="u"):
 
 def uphys(c, name="u"):
     return Poly.atom(("u", name, c, "P"))
+
+
+# documented per-axis values of the scaling arrays (build_scaling_array docstring):
+# (mean mode, interior mode, Nyquist mode [even N only]) as multiples of N; "last" = halved rfft axis
+SCALING_TABLE = {
+    "norm_compensation": {"last": (1, 1, 1), "other": (1, 1, 1)},
+    "reconstruction": {"last": (1, Fr(1, 2), 1), "other": (1, 1, 1)},
+    "coef_extraction": {"last": (1, Fr(1, 2), 1), "other": (1, Fr(1, 2), 1)},
+}
+
+
+def scaling(D, mode, parity, N_=N):
+    """the scaling array as a polynomial in the per-axis indicators 1{k_a = 0} and (even N) 1{|k_a| = N/2}"""
+    out = Poly.const(1)
+    for a, k in enumerate(kvec(D)):
+        role = "last" if a == D - 1 else "other"
+        dc, interior, nyq = SCALING_TABLE[mode][role]
+        chi0 = alg.ind("eq", k, 0)
+        f = chi0 * dc + (1 - chi0) * interior
+        if parity == 0:
+            nyq_k = N_ / 2 if a == D - 1 else -N_ / 2
+            chin = alg.ind("eq", k, nyq_k)
+            f = chin * nyq + (1 - chin) * f
+        out = out * (N_ * f)
+    return out
